@@ -232,6 +232,7 @@ Definition exec (ps : pstate_) (toks : list str) : pstate_ * str :=
         | Some d, Some s =>
           if (d =? s)%nat then (ps, err) else
           let src := s_url (get_slot st s) in
+          if is_none src then (ps, lit "reparse skipped") else
           let href := match src with Some u => serialize u false | None => [] end in
           let base := match slot_of tb with Some b => Some (s_url (get_slot st b)) | None => None end in
           let r := do_parse idna EU8 href base in
@@ -250,6 +251,7 @@ Definition exec (ps : pstate_) (toks : list str) : pstate_ * str :=
         match slot_of ta, slot_of tb with
         | Some a, Some b =>
             let xf := tok_is tx "1" in
+            if is_none (s_url (get_slot st a)) || is_none (s_url (get_slot st b)) then (ps, lit "equals skipped") else
             let sa := match s_url (get_slot st a) with Some u => serialize u xf | None => [] end in
             let sb := match s_url (get_slot st b) with Some u => serialize u xf | None => [] end in
             let fa := match s_url (get_slot st a) with Some u => serialize u false | None => [] end in
